@@ -191,9 +191,20 @@ DeclOK(d, ep, inp, env, nv, out) ==
 \* built-in sanitizers, or a single custom one from the idempotent part of the
 \* catalogue.  Validators never change a value, so any of them may be present.
 IdemFns == {"clamp", "to_k", "nan_to", "sort", "take2"}
+\* ... or one idempotent custom function among built-ins, in a position where the chain as a whole is idempotent:
+\* nothing but `trim` after it (a case mapping after a truncation can grow the value again) and, when `trim` is used
+\* at all, a `trim` after it (a truncation can expose a trailing space).  MC_ValueStr checks this rule (Canonical).
+IdemPipeline(d) ==
+  LET idx == {i \in DOMAIN d.san : d.san[i].k = "with"} IN
+  /\ Cardinality(idx) = 1
+  /\ \A i \in idx :
+        /\ d.san[i].fn \in IdemFns
+        /\ \A j \in DOMAIN d.san : j > i => d.san[j].k = "trim"
+        /\ (\E j \in DOMAIN d.san : d.san[j].k = "trim") => (\E j \in DOMAIN d.san : j > i /\ d.san[j].k = "trim")
 Builtin(d) ==
   \/ \A i \in DOMAIN d.san : d.san[i].k \in {"trim", "lowercase", "uppercase"}
   \/ (Len(d.san) = 1 /\ d.san[1].k = "with" /\ d.san[1].fn \in IdemFns)
+  \/ IdemPipeline(d)
 
 \* Set of values obtainable through the guarded constructor from `Dom`.
 ValidSet(d, Dom, env, nv) == {OutVal(DeclCtor(d, x, env, nv)) : x \in {y \in Dom : IsOk(DeclCtor(d, y, env, nv))}}
